@@ -62,13 +62,12 @@ class BuildError(Exception):
     pass
 
 
-def build_libs(extra_flags=(), with_util=True, netfile=None, tag=""):
+def build_libs(extra_flags=(), with_util=True, tag=""):
     """Compile texellib (+texelutillib) from the current /repo tree.
     Returns dict(dir=..., libs=[...], inc=[...], flags=[...])."""
     flags = BASE_FLAGS + list(extra_flags)
     srcs = _all_sources(TL) + (_all_sources(UL) if with_util else [])
-    net = netfile or os.path.join(REPO, "nndata.tbin.compr")
-    h = sha_files(srcs + [net], extra=" ".join(flags) + tag + str(with_util))
+    h = sha_files(srcs, extra=" ".join(flags) + tag + str(with_util))
     d = os.path.join(CACHE, "cxx", "lib-" + h)
     ok = os.path.join(d, "OK")
     inc = INC_TL + (INC_UL if with_util else [])
@@ -82,13 +81,10 @@ def build_libs(extra_flags=(), with_util=True, netfile=None, tag=""):
     shutil.rmtree(d, ignore_errors=True)
     os.makedirs(os.path.join(d, "o1"))
     os.makedirs(os.path.join(d, "o2"))
-    nnd = os.path.join(d, "nndata.cpp")
-    with open(nnd, "w") as f:
-        f.write('#include "incbin.h"\nINCBIN(NNData, "%s");\n' % net)
     incflags = ["-I" + i for i in inc + INC_TL_PRIV]
     jobs = []
     objs1, objs2 = [], []
-    for s in _all_sources(TL) + [nnd]:
+    for s in _all_sources(TL):
         if s.endswith("incbin.c"):
             continue
         if s.endswith(".cpp"):
@@ -117,22 +113,88 @@ def build_libs(extra_flags=(), with_util=True, netfile=None, tag=""):
     return res
 
 
-def build_harness(name, extra_flags=(), lib_flags=(), with_util=True, netfile=None, extra_srcs=(), defines=()):
+def nndata_obj(netfile=None):
+    """Object file embedding a network file (default: the tree's own, empty, nndata.tbin.compr)."""
+    net = netfile or os.path.join(REPO, "nndata.tbin.compr")
+    h = sha_files([net, os.path.join(TL, "nn", "incbin.h")])
+    d = os.path.join(CACHE, "cxx", "nnd-" + h)
+    o = os.path.join(d, "nndata.o")
+    if os.path.exists(o):
+        os.utime(d, None)
+        return o
+    os.makedirs(d, exist_ok=True)
+    # the embedded file must stay readable only at compile time: copy it next to the object
+    netcopy = os.path.join(d, "net.compr")
+    shutil.copy(net, netcopy)
+    src = os.path.join(d, "nndata.cpp")
+    with open(src, "w") as f:
+        f.write('#include "incbin.h"\nINCBIN(NNData, "%s");\n' % netcopy)
+    sh(["g++", "-std=c++11", "-O1", "-w", "-I" + os.path.join(TL, "nn"), "-c", src, "-o", o + ".tmp"], check=True, timeout=600)
+    os.rename(o + ".tmp", o)
+    return o
+
+
+def make_net(kind="material", seed=1):
+    """Synthetic evaluation network file built with /repo's own NetData::save + Lzma86_Encode."""
+    exe = build_harness("mknet", with_util=False, priv_inc=True)
+    d = os.path.join(os.path.dirname(exe), "nets")
+    os.makedirs(d, exist_ok=True)
+    out = os.path.join(d, "%s-%d.compr" % (kind, seed))
+    if not os.path.exists(out):
+        sh([exe, kind, str(seed), out + ".tmp"], check=True, timeout=600)
+        os.rename(out + ".tmp", out)
+    return out
+
+
+def build_engine(net_kind="material", net_seed=1, extra_flags=(), lib_flags=(), defines=()):
+    """The UCI engine binary (app/texel) from the current /repo tree with a synthetic net."""
+    net = make_net(net_kind, net_seed)
+    libs = build_libs(extra_flags=lib_flags, with_util=False)
+    srcs = [os.path.join(APP, f) for f in ("enginecontrol.cpp", "texel.cpp", "tuigame.cpp", "uciprotocol.cpp")]
+    h = sha_files(_all_sources(APP) + [net], extra=libs["hash"] + " ".join(extra_flags) + " ".join(defines))
+    d = os.path.join(CACHE, "cxx", "engine-" + h)
+    exe = os.path.join(d, "texel")
+    if os.path.exists(exe):
+        os.utime(d, None)
+        return exe
+    os.makedirs(d, exist_ok=True)
+    incflags = ["-I" + i for i in libs["inc"] + [APP]]
+    objs = []
+    jobs = []
+    for s in srcs:
+        o = os.path.join(d, os.path.basename(s) + ".o")
+        jobs.append((["g++"] + libs["flags"] + list(extra_flags) + ["-D" + x for x in defines] + incflags + ["-c", s, "-o", o], o))
+        objs.append(o)
+    errs = _compile_many(jobs)
+    if errs:
+        shutil.rmtree(d, ignore_errors=True)
+        raise BuildError("compiling app/texel failed:\n" + "\n".join(errs[:3]))
+    cmd = ["g++"] + libs["flags"] + list(extra_flags) + objs + [nndata_obj(net)] + libs["libs"] + ["-lpthread", "-lrt", "-o", exe + ".tmp"]
+    rc, so, se = sh(cmd, timeout=900)
+    if rc != 0:
+        shutil.rmtree(d, ignore_errors=True)
+        raise BuildError("linking engine failed:\n" + se[-3000:])
+    os.rename(exe + ".tmp", exe)
+    return exe
+
+
+def build_harness(name, extra_flags=(), lib_flags=(), with_util=True, netfile=None, extra_srcs=(), defines=(), priv_inc=False):
     """Compile /verif/harness/<name>.cpp against the current /repo tree; return exe path."""
-    libs = build_libs(extra_flags=lib_flags, with_util=with_util, netfile=netfile)
+    libs = build_libs(extra_flags=lib_flags, with_util=with_util)
     src = os.path.join(VERIF, "harness", name + ".cpp")
     hdrs = glob.glob(os.path.join(VERIF, "harness", "*.hpp"))
     xs = [os.path.join(REPO, s) if not os.path.isabs(s) else s for s in extra_srcs]
-    h = sha_files([src] + hdrs + xs + _all_sources(APP), extra=libs["hash"] + " ".join(extra_flags) + " ".join(defines))
+    h = sha_files([src] + hdrs + xs + _all_sources(APP) + ([netfile] if netfile else []),
+                  extra=libs["hash"] + " ".join(extra_flags) + " ".join(defines))
     d = os.path.join(CACHE, "cxx", "h-%s-%s" % (name, h))
     exe = os.path.join(d, name)
     if os.path.exists(exe):
         os.utime(d, None)
         return exe
     os.makedirs(d, exist_ok=True)
-    incflags = ["-I" + i for i in libs["inc"] + [os.path.join(VERIF, "harness"), APP]]
+    incflags = ["-I" + i for i in libs["inc"] + [os.path.join(VERIF, "harness"), APP] + (INC_TL_PRIV if priv_inc else [])]
     cmd = (["g++"] + libs["flags"] + list(extra_flags) + ["-D" + x for x in defines] + incflags +
-           [src] + xs + ["-o", exe + ".tmp"] + libs["libs"] + ["-lpthread", "-lrt"])
+           [src] + xs + [nndata_obj(netfile), "-o", exe + ".tmp"] + libs["libs"] + ["-lpthread", "-lrt"])
     rc, so, se = sh(cmd, timeout=900)
     if rc != 0:
         shutil.rmtree(d, ignore_errors=True)
